@@ -234,6 +234,19 @@ func (e *explorer) explore(prefix []uint8, depth int) {
 	}
 	x := e.runOnce(prefix, false)
 	s := x.sched
+	if s == nil {
+		// the scenario body failed before starting its threads (set-up panic): report and stop
+		for _, d := range x.Disc {
+			sig := d.Kind + "/" + d.Subject
+			e.res.ViolCount[sig]++
+			if e.viol[sig] == nil {
+				e.viol[sig] = &Violation{Discrepancy: d, Scenario: e.sc.Name, Params: e.job.Params, Choices: prefix, Obs: x.Obs}
+			}
+		}
+		e.res.Capped = "scenario set-up failed"
+		e.timedOut = true
+		return
+	}
 	counted := !(depth == 0 && e.job.Shard != 0)
 	pts := s.Points
 	if counted {
